@@ -561,7 +561,7 @@ def gen_grid_case(r: random.Random, tier: str, flavour: str) -> dict[str, Any]:
     n = cells
     if flavour == "pre":
         for _ in range(r.choice([1, 1, 2, 3])):
-            case["pre"].append(r.choice(["finished", "finished", "failed", "stale-grid"]))
+            case["pre"].append(r.choice(["finished", "finished", "failed", "stale-grid", "killed-1", "killed-2", "killed-2"]))
     elif flavour == "queue":
         # enqueued trials waiting when the run starts (also on a one-cell grid, where after_trial sees
         # "exactly one free cell" while a trial without grid id finishes)
@@ -612,6 +612,10 @@ def run_grid_real(case: dict[str, Any]) -> dict[str, Any]:
         shutil.rmtree(tmpd, ignore_errors=True)
 
 
+class _Killed(BaseException):
+    """stands for SIGKILL of the worker: no `except Exception` / `except KeyboardInterrupt` handler sees it"""
+
+
 def _same(a: Any, b: Any) -> bool:
     return a == b or (isinstance(a, float) and isinstance(b, float) and a != a and b != b)
 
@@ -648,6 +652,27 @@ def _run_grid_real_on(case: dict[str, Any], sampler: Any, rec: Any, tmpd: str) -
             study.enqueue_trial(dict(some))
         elif kind == "stale-grid":
             study.ask()  # before_trial assigns a grid id; the worker dies before it tells
+        elif kind.startswith("killed-"):
+            # the worker process is killed INSIDE study.ask(): before the k-th attribute write of the sampler's
+            # before_trial (kill -9: not an Exception, nothing cleans up; the trial stays RUNNING with part of its attrs)
+            k_die = int(kind.split("-")[1])
+            st_obj = study._storage
+            orig = st_obj.set_trial_system_attr
+            seen = [0]
+
+            def dying(trial_id: int, key: str, value: Any, _orig: Any = orig, _seen: list[int] = seen, _k: int = k_die) -> None:
+                _seen[0] += 1
+                if _seen[0] == _k:
+                    raise _Killed()
+                _orig(trial_id, key, value)
+
+            st_obj.set_trial_system_attr = dying  # type: ignore[method-assign]
+            try:
+                study.ask()
+            except _Killed:
+                pass
+            finally:
+                del st_obj.set_trial_system_attr
         elif kind == "grid-done":
             def plain(trial: Any) -> float:
                 for nm in names:
@@ -706,7 +731,7 @@ def _run_grid_real_on(case: dict[str, Any], sampler: Any, rec: Any, tmpd: str) -
         if gid is not None and t.state.is_finished() and set(t.params) == set(names):
             cell_ok = isinstance(gid, int) and 0 <= gid < n and all(_same(t.params[nm], g) for nm, g in zip(names, all_grids[gid]))
         trials.append({"gid": gid, "state": st, "params": {k: t.params[k] for k in t.params}, "cell_ok": cell_ok,
-                       "tstate": t.state.name})
+                       "tstate": t.state.name, "has_space": "search_space" in t.system_attrs})
     return {"n": n, "trials": trials, "stop": bool(study._stop_flag), "crashed": crashed,
             "calls": [{"a": sorted(c["a"]), "i": c["i"], "v": c["a"][c["i"]]} for c in rec.calls[pre_calls:]],
             "grids": all_grids, "names": names, "runaway": runaway}
@@ -721,6 +746,9 @@ def grid_request(case: dict[str, Any], real: dict[str, Any]) -> dict[str, Any]:
             pre.append([None, "waiting"])
         elif kind == "grid-done":
             pre.append([real["trials"][j]["gid"], "finished"])
+        elif kind.startswith("killed-"):
+            # RUNNING for ever; it counts for the grid only if BOTH attrs were written (grid id and search space)
+            pre.append([real["trials"][j]["gid"] if real["trials"][j].get("has_space") else None, "running"])
         else:
             pre.append([real["trials"][j]["gid"], "running"])
     raises = [int(t) for t, o in case["outcomes"].items() if o in ("raise", "interrupt")]
